@@ -119,6 +119,18 @@ Proof. intros L1 L2 L3 L4 L5 L6 L7 H. unfold pay_transcript in H.
   apply range_chunks_injective in R1, R2; auto.
   repeat split; auto. unfold sp_first. destruct (sp_sig (p_tok p)), (sp_sig (p_tok p')); simpl in *. congruence. Qed.
 
+Theorem establish_transcripts_differ (pk pk' : pkey K) cid cb mb cid' cb' mb' (p : eproof K) ctx ctx' :
+  length (pk_y1s pk) = length (pk_y1s pk') -> length (pk_y2s pk) = length (pk_y2s pk') ->
+  (pk, cid, cb, mb, ctx) <> (pk', cid', cb', mb', ctx') ->
+  establish_transcript close_tag pk cid cb mb p ctx <> establish_transcript close_tag pk' cid' cb' mb' p ctx'.
+Proof. intros L1 L2 Hne E. apply Hne.
+  destruct (establish_transcript_binds pk pk' cid cb mb cid' cb' mb' p p ctx ctx' L1 L2 E)
+    as (-> & -> & -> & -> & _ & _ & _ & _ & _ & _ & _ & _ & ->). reflexivity. Qed.
+
+Theorem same_challenge_is_collision (chal : list (atom K) -> K) t t' :
+  t <> t' -> chal t = chal t' -> exists a b, a <> b /\ chal a = chal b.
+Proof. intros H E. exists t, t'. auto. Qed.
+
 End P.
 
 (** ** byte level: chunks of fixed width concatenate injectively *)
